@@ -300,6 +300,61 @@ for src in DEFS:
     con.cases.append(c)
 
 
+# ---- (8) constructor emulation: the __init__ that runs is the one of the object __new__ RETURNED -----------------------------------
+# type.__call__: obj = cls.__new__(cls, ...); if isinstance(obj, cls): type(obj).__init__(obj, ...) -- a __new__ that returns an
+# instance of a subclass gets the subclass's __init__.
+class _PBase:
+    def __new__(cls, a):
+        return object.__new__(_QSub)
+
+    def __init__(self, a):
+        self.who = "base"
+
+
+class _QSub(_PBase):
+    def __init__(self, a):
+        self.who = "sub"
+
+
+def ctor_spec(sx, self, inp):
+    it = sx.it
+
+    def holds(res):
+        calls = it.subcalls
+        if len(calls) != 2 or calls[0][0] is not _PBase.__new__ or calls[0][1] != [_PBase, 1]:
+            return False
+        init_fn, init_args = calls[1]
+        return init_fn is _QSub.__init__ and len(init_args) == 2 and isinstance(init_args[0], _QSub) and init_args[1] == 1
+
+    return C.Pred(holds, "__new__(cls, 1), then type(new object).__init__(new object, 1)")
+
+
+def _ctor_subcall(it, self, fn, args, kwargs, noreturn=None):
+    it.subcalls.append((fn, list(args)))
+    if fn is _PBase.__new__:
+        return SObj(_Expr, f_result=object.__new__(_QSub), f_bound=[], _bound_statements=[])
+    return SObj(OUT.Value, _result=None, _bound_statements=[])
+
+
+def _ctor_apply(it, self, n):
+    return SObj(_Expr, f_result=_PBase if isinstance(n, ast.Name) else n.value, f_bound=[], _bound_statements=[])
+
+
+c = Case("constructor:__new__-returns-instance-of-subclass", [SELF, Built([], lambda env: ast.parse("K(1)", mode="eval").body, lambda a: "<K(1)>", lambda a: None)], ctor_spec)
+c.native = False
+c.models = [(_Prep.apply, _ctor_apply), (_Prep.subcall, _ctor_subcall), (PA._is_intrinsic, lambda it, x: False), (PA._is_expr_function, lambda it, x: False)]
+c.interp_flags = {"class_call_models": {OUT.Value: lambda it, args, kw: SObj(OUT.Value, _result=args[0], _bound_statements=args[1]),
+                                        OUT.Call: lambda it, args, kw: SObj(OUT.Call, f_code=args[0]), OUT.CodeBlock: lambda it, args, kw: SObj(OUT.CodeBlock, f_list=list(args[0])),
+                                        OUT.Return: lambda it, args, kw: SObj(OUT.Return, f_value=args[0])}}
+
+
+def _ctor_setup(it, ctx, args, env):
+    it.subcalls = []
+
+
+c.setup = _ctor_setup
+con.cases.append(c)
+
 for _c in con.cases:
     if _c.name.startswith("call-keywords:"):
         _c.custom_replay = "contracts.c10_subset.replay_call_keywords"
@@ -425,14 +480,14 @@ def _tripled(f):
     import functools
 
     @functools.wraps(f)
-    def wrapper(a):
-        return 3 * f(a)
+    def wrapper(a, scale=3):
+        return scale * f(a)
 
     return wrapper
 
 
 @_tripled
-def _incr(a):
+def _incr(a, scale=100):  # the wrapper's OWN default (3) applies to a call of the decorated function, not this one
     return a + 1
 
 
